@@ -36,6 +36,7 @@ func (srv *Srv) version(req *SrvReq) {
 			rr.Unlock()
 		}
 	}
+	verifPoint("version.marked", req, 0, 0)
 	conn.Unlock()
 
 	req.RespondRversion(conn.Msize, ver)
@@ -152,6 +153,7 @@ func (srv *Srv) flush(req *SrvReq) {
 		req.flushreq = r.flushreq
 		r.flushreq = req
 	}
+	verifPoint("flush.chained", req, 0, 0)
 	conn.Unlock()
 
 	if r == nil {
@@ -166,8 +168,10 @@ func (srv *Srv) flush(req *SrvReq) {
 		/* the request is not worked on yet */
 		r.status |= reqFlush
 	}
+	verifPoint("flush.decided", req, uint32(status), 0)
 	r.Unlock()
 
+	verifPoint("flush.act", req, uint32(status), 0)
 	if (status & (reqWork | reqSaved)) == 0 {
 		r.Respond()
 	} else {
